@@ -36,8 +36,9 @@ type Ctx struct {
 	Pkgs      map[string]*packages.Package
 	Prog      *ssa.Program
 	SSA       map[string]*ssa.Package
-	Funcs     []*ssa.Function // all source functions of the module (incl. closures, instantiations)
-	okGuardAt ssa.Instruction // NIL-TYPED: the use site whose dominating tests may guard a helper's comma-ok result
+	Funcs     []*ssa.Function   // all source functions of the module (incl. closures, instantiations)
+	phiBusy   map[*ssa.Phi]bool // phiBoolAtoms: phis being read (loop-carried booleans)
+	okGuardAt ssa.Instruction   // NIL-TYPED: the use site whose dominating tests may guard a helper's comma-ok result
 
 	roles        map[string]any // memoised role resolutions
 	cycleMemo    map[*ssa.Function]bool
